@@ -14,7 +14,7 @@ from ..model import refcsv
 PROPERTY = 'C11'
 LEVEL = 'exploration'
 
-DELIMS = [',', '\t', ';', ' ', '::', '|', '→', ', ']
+DELIMS = [',', '\t', ';', ' ', '::', '|', '→', ', ', '\\', '^', '.', '*']      # the last four are regular-expression metacharacters
 NSHARDS_PER_DELIM = {'quick': 3, 'thorough': 6}
 MAXLEN = {'quick': 8, 'thorough': 9}
 MAXLEN_MULTI = {'quick': 6, 'thorough': 7}
@@ -118,9 +118,12 @@ def check_line(ns, res, line, dlm, relabel=None):
             res.violation('relabel-split', 'smart_split(%r, %r) -> %r, reference %r' % (rline, dlm, got, ref), {'line': rline, 'dlm': dlm, 'mode': 'smart_split', 'policy': 'quoted'})
 
 
-def random_other(rng, dlm):
+def random_other(rng, dlm, allow_breaks=False):
     while True:
         r = rng.random()
+        if r < 0.03 and allow_breaks:
+            # only ever handed to the splitter directly (never to a reader): a caller may pass lines that still carry their line break
+            return rng.choice(['\n', '\r', '\x0b', '\x0c', '\x85', '\u2028'])
         if r < 0.4:
             c = chr(rng.randrange(0x21, 0x7f))
         elif r < 0.7:
@@ -152,7 +155,7 @@ def run_shard(spec, res):
             line = ''.join(tup)
             relabel = None
             if idx % 7 == 0 and 'x' in tup:
-                rl = ''.join(random_other(rng, dlm) if s == 'x' else s for s in tup)
+                rl = ''.join(random_other(rng, dlm, allow_breaks=True) if s == 'x' else s for s in tup)
                 relabel = (rl, None)
             check_line(ns, res, line, dlm, relabel)
             if idx % 9973 == 0:
